@@ -44,7 +44,7 @@ Alphabet == {
 DataOps == {c \in Alphabet : NeedsPlatform(c)}
 
 Empty == [files |-> <<>>, dirs |-> {}]
-Populated == [files |-> (P_a :> <<20, 21, 22>>) @@ (<<122>> :> <<23>>), dirs |-> {<<100>>}]      \* a.bin, z ; dir d
+Populated == [files |-> (P_a :> <<20, 21, 22, 29, 30, 31>>) @@ (<<122>> :> <<23>>), dirs |-> {<<100>>}]   \* a.bin (longer than any write into it), z ; dir d
 Touched == [files |-> (P_a :> <<20>>) @@ (P_dat :> Fill(24, 5)) @@ (DatPath(C2, 0) :> <<25, 26, 27>>)
                       @@ (P_db :> <<28>>),
             dirs |-> Ancestors(P_dat) \cup Ancestors(DatPath(C2, 0)) \cup {<<100>>}]
